@@ -173,7 +173,7 @@ pub fn gated_case(p: &Profile) -> BoxedStrategy<Case> {
         let _ = first_free;
         callers.extend(free_callers);
         let must: Vec<u8> = (k as u8..objects).collect();
-        let cfg = Cfg { pool, objects, gates, streams: 0, level: Level::Desync, unlock_points, spurious: vec![], pre_open: vec![], root_holds: true, double_wake: false, gate_keep_all: false, stream_always_register: false, keep_going_after_early_destroy: false, despawn_without_quiescence: false };
+        let cfg = Cfg { pool, objects, gates, streams: 0, level: Level::Desync, unlock_points, spurious: vec![], pre_open: vec![], root_holds: true, double_wake: false, gate_keep_all: false, stream_always_register: false, keep_going_after_early_destroy: false, despawn_without_quiescence: false, unwinding_drops: false };
         let phase0 = Phase { callers, must_finish_objs: if k > 0 { must } else { vec![] }, ..Default::default() };
         Case { cfg, phases: vec![phase0], sched }
     })
@@ -259,7 +259,7 @@ pub fn panic_case(p: &Profile) -> BoxedStrategy<Case> {
             };
             ph2.push(vec![Op::Attempt { o: 0, kind, id: 0 }]);
         }
-        let cfg = Cfg { pool, objects, gates: 1, streams: 0, level: Level::Desync, unlock_points, spurious: vec![], pre_open: vec![], root_holds: true, double_wake: false, gate_keep_all: false, stream_always_register: false, keep_going_after_early_destroy: false, despawn_without_quiescence: false };
+        let cfg = Cfg { pool, objects, gates: 1, streams: 0, level: Level::Desync, unlock_points, spurious: vec![], pre_open: vec![], root_holds: true, double_wake: false, gate_keep_all: false, stream_always_register: false, keep_going_after_early_destroy: false, despawn_without_quiescence: false, unwinding_drops: false };
         let phase0 = Phase { callers, expect_panicked: vec![0], ..Default::default() };
         let phase1 = Phase { callers: ph2, capacity_probe: true, ..Default::default() };
         Case { cfg, phases: vec![phase0, phase1], sched }
@@ -363,7 +363,7 @@ pub fn abandoned_poll_case(p: &Profile) -> BoxedStrategy<Case> {
 /// C11: splice a `pipe_in` (processing function with yields / awaits) into a caller; the producer pushes bursts
 pub fn pipein_case(p: &Profile) -> BoxedStrategy<Case> {
     let p = p.clone();
-    let pipe_body = vec(prop_oneof![3 => Just(Step::Touch), 5 => Just(Step::Yield), 3 => any::<u8>().prop_map(|g| Step::AwaitGate { g })], 0..=3);
+    let pipe_body = vec(prop_oneof![3 => Just(Step::Touch), 5 => Just(Step::Yield), 3 => any::<u8>().prop_map(|g| Step::AwaitGate { g }), 1 => Just(Step::SelfWake)], 0..=3);
     let producer = vec(prop_oneof![3 => Just(POp::Yield), 4 => (1u8..=3).prop_map(|n| POp::Push { n }), 4 => Just(POp::PushDuring), 1 => Just(POp::Close)], 1..=7);
     (cfg_strategy(&p), phase_strategy(&p), sched_strategy(p.sched_bytes), (any::<u8>(), any::<u8>(), any::<u8>(), pipe_body, producer)).prop_map(|(mut cfg, mut phase, sched, (which, pos, o, body, producer))| {
         cfg.streams = cfg.streams.max(1);
@@ -394,7 +394,7 @@ pub fn pipedrop_case(p: &Profile, drop_output: bool) -> BoxedStrategy<Case> {
         OpW { consume: 14, yield_: 4, desync: 2, sync: 1, opengate: 2, trysync: 0, futdesync: 0, futsync: 0, after: 0, await_: 0, syncwait: 0, pollonce: 0, dropfut: 0, detach: 0, release: 0, waitfor: 0, ..OpW::default() }
     };
     let mid_ops = vec(op_strategy(&mid), if drop_output { 0..=3 } else { 1..=5 });
-    let pipe_body = vec(prop_oneof![4 => Just(Step::Touch), 4 => Just(Step::Yield), 3 => any::<u8>().prop_map(|g| Step::AwaitGate { g })], 0..=2);
+    let pipe_body = vec(prop_oneof![4 => Just(Step::Touch), 4 => Just(Step::Yield), 3 => any::<u8>().prop_map(|g| Step::AwaitGate { g }), 1 => Just(Step::SelfWake)], 0..=2);
     let producer = if drop_output {
         vec(prop_oneof![3 => Just(POp::Yield), 6 => (1u8..=3).prop_map(|n| POp::Push { n })], 0..=5).boxed()
     } else {
